@@ -144,6 +144,9 @@ pub struct Outcome {
     pub trace: Vec<(u64, String, String, usize)>,
     pub log_hash: u64,
     pub state_hashes: Vec<u64>,
+    /// (step, phase, hash): phase 0 = live after the op, 2 = after a restart
+    pub step_hashes: Vec<(i64, u8, u64)>,
+    pub final_obs: Option<Obs>,
     pub steps_done: usize,
     pub op_errors: usize,
     pub crash_fired: bool,
@@ -309,20 +312,38 @@ impl<'a> Exec<'a> {
                 Ok(()) => "ok:()".into(),
                 Err(e) => format!("err:{e}"),
             },
-            Op::DropRelation { kg, rel } => match model.drop_relation(kg, rel) {
-                Ok(()) => "ok:()".into(),
-                Err(e) => format!("err:{e}"),
-            },
+            Op::DropRelation { kg, rel } => {
+                // the engine reports "not found" for a relation without data, rule or schema; an
+                // emptied relation is still known to a running engine but not after a restart, so
+                // the result class is left open in that case
+                let known = model.kgs.get(kg).is_some_and(|k| {
+                    k.rels.get(rel).is_some_and(|r| !r.is_empty()) || k.rules.contains_key(rel) || k.schemas.contains_key(rel)
+                });
+                match model.drop_relation(kg, rel) {
+                    Ok(()) => {
+                        if known {
+                            "ok:()".into()
+                        } else {
+                            "any".into()
+                        }
+                    }
+                    Err(e) => format!("err:{e}"),
+                }
+            }
             Op::RegisterRule { kg, text } => {
                 let Some(k) = model.kgs.get_mut(kg) else { return "err:kg".into() };
-                let name = text.trim_start_matches('+').split('(').next().unwrap_or("").trim().to_string();
+                let name = text.split('(').next().unwrap_or("").trim().to_string();
                 if k.rels.get(&name).is_some_and(|r| !r.is_empty()) {
                     // engine-defined; the harness generator avoids this
                     return "any".into();
                 }
+                let existed = k.rules.contains_key(&name);
                 let cl = k.rules.entry(name).or_default();
-                cl.push(text.clone());
-                if cl.len() == 1 {
+                // the catalog ignores a clause identical to one it already holds
+                if !cl.contains(text) {
+                    cl.push(text.clone());
+                }
+                if !existed {
                     "ok:\"Created\"".into()
                 } else {
                     format!("ok:\"RuleAdded({})\"", cl.len())
@@ -403,7 +424,10 @@ impl<'a> Exec<'a> {
         let e = self.engine.as_ref().expect("engine");
         let obs = observe(e).map_err(|d| fail("observe_failed", step, d))?;
         self.logln(&format!("obs {}", serde_json::to_string(&obs).unwrap_or_default()));
-        self.out.state_hashes.push(fnv64(serde_json::to_string(&obs).unwrap_or_default().as_bytes()));
+        let h = fnv64(serde_json::to_string(&obs).unwrap_or_default().as_bytes());
+        self.out.state_hashes.push(h);
+        self.out.step_hashes.push((step, 0, h));
+        self.out.final_obs = Some(obs.clone());
         if let Some(d) = obs.has_duplicates() {
             return Err(fail("not_a_set", step, d));
         }
@@ -455,18 +479,30 @@ impl<'a> Exec<'a> {
     fn restart(&mut self, step: i64, graceful: bool) -> Result<(), Failure> {
         let before = self.check_live(step, "live_differs_from_model")?;
         if graceful {
-            if let Err(e) = self.engine.as_ref().expect("engine").save_all() {
+            let r = self.engine.as_ref().expect("engine").save_all();
+            if simsys::is_frozen() {
+                return Ok(());
+            }
+            if let Err(e) = r {
                 return Err(fail("op_failed", step, format!("save_all at shutdown: {e}")));
             }
         }
         self.engine = None;
         self.out.restarts += 1;
-        if let Err(e) = self.open() {
+        let opened = self.open();
+        if simsys::is_frozen() {
+            // the crash point lies inside this restart's recovery: the restart is the in-flight
+            // operation (handled by the caller), not a failure
+            return Ok(());
+        }
+        if let Err(e) = opened {
             return Err(fail("reopen_failed", step, e));
         }
         let e = self.engine.as_ref().expect("engine");
         let after = observe(e).map_err(|d| fail("observe_failed", step, d))?;
         self.logln(&format!("obs-after-restart {}", serde_json::to_string(&after).unwrap_or_default()));
+        self.out.step_hashes.push((step, 2, fnv64(serde_json::to_string(&after).unwrap_or_default().as_bytes())));
+        self.out.final_obs = Some(after.clone());
         if let Some(d) = after.has_duplicates() {
             return Err(fail("not_a_set", step, d));
         }
